@@ -221,13 +221,17 @@ fn run_job(job: Job) -> JobResult {
 
 struct Group { pre: Vec<usize>, conns: Vec<Vec<usize>>, exhaustive: bool, jobs: Vec<Job> }
 
+/// Cap per subtree: the largest exhaustive scenario has 1698 schedules in
+/// total; without the mutex the space is much larger.
+const SUBTREE_CAP: usize = 6000;
+
 fn exhaustive_group(pre: &[usize], conns: &[Vec<usize>]) -> Group {
     let n = conns.len();
     let mut jobs = Vec::new();
     for a in 0..n {
         for b in 0..n {
             jobs.push(Job::Subtree {
-                pre: pre.to_vec(), conns: conns.to_vec(), root: vec![a, b], limit: usize::MAX
+                pre: pre.to_vec(), conns: conns.to_vec(), root: vec![a, b], limit: SUBTREE_CAP
             });
         }
     }
